@@ -80,11 +80,13 @@ func runOneTools(id int, d *gen.SpecD) map[string]interface{} {
 		if err != nil {
 			obs["analysisErr"] = err.Error()
 		} else {
-			obs["analysis"] = map[string]interface{}{
-				"nodeCount": a.NodeCount, "branches": a.Branches, "actions": a.Actions, "guards": a.Guards,
-				"terminal": sortedStrings(a.TerminalNodes), "orphans": sortedStrings(a.Orphans),
-				"emptyTargets": sortedStrings(a.EmptyTargets), "missing": sortedStrings(a.MissingTargets),
-				"targetVars": sortedStrings(a.BranchTargetVariables), "interpreters": sortedStrings(a.Interpreters)}
+			obs["analysis"] = analysisObs(a)
+			// a result belongs to its caller: the analysis handed out for the previous spec still
+			// says what it said when it was returned
+			if prevAnalysis != nil {
+				line["probe"] = map[string]interface{}{"resultsIndependent": gen.Canon(analysisObs(prevAnalysis)) == prevAnalysisText}
+			}
+			prevAnalysis, prevAnalysisText = a, gen.Canon(obs["analysis"])
 		}
 		var db bufCloser
 		if err := tools.Dot(spec, &db, "", ""); err != nil {
@@ -131,6 +133,19 @@ func runOneTools(id int, d *gen.SpecD) map[string]interface{} {
 	}()
 	line["go"] = obs
 	return line
+}
+
+var (
+	prevAnalysis     *tools.SpecAnalysis
+	prevAnalysisText string
+)
+
+func analysisObs(a *tools.SpecAnalysis) map[string]interface{} {
+	return map[string]interface{}{
+		"nodeCount": a.NodeCount, "branches": a.Branches, "actions": a.Actions, "guards": a.Guards,
+		"terminal": sortedStrings(a.TerminalNodes), "orphans": sortedStrings(a.Orphans),
+		"emptyTargets": sortedStrings(a.EmptyTargets), "missing": sortedStrings(a.MissingTargets),
+		"targetVars": sortedStrings(a.BranchTargetVariables), "interpreters": sortedStrings(a.Interpreters)}
 }
 
 func runTools(cfg Config) {
